@@ -225,6 +225,32 @@ var c11Edits = []c11Edit{
 		*p = &wexpr{k: "swz", ty: t, name: nm, args: []*wexpr{{k: "cons", ty: tVec(2, t), args: []*wexpr{zeroOf(t), zeroOf(t)}}}}
 		return "." + nm, true
 	}},
+	{rule: "swizzle-invalid-store", apply: func(c *ctx, m *wmodule) (string, bool) {
+		// component beyond the vector width used as a store target / compound target / increment
+		st := c.pick("zz_v.z = 3u;", "zz_v.w = 3u;", "zz_v.b += 1u;", "zz_v.z++;", "zz_v.a -= 2u;")
+		insertStmt(c, m, &wstmt{k: "raw", name: "{ var zz_v: vec2<u32> = vec2<u32>(1u, 2u); " + st + " }"})
+		return "zz_v.", true
+	}},
+	{rule: "late-call-arg-count", apply: func(c *ctx, m *wmodule) (string, bool) {
+		// a helper declared AFTER every caller (appended to the source, see cmdC11) is called with the wrong arity
+		p := randSlot(c, m, func(e *wexpr) bool { return e.ty != nil && e.ty.k == "u32" && e.k != "lit" })
+		if p == nil {
+			return "", false
+		}
+		args := c.pick("late_zz()", "late_zz(1u, 2u, 3u)", "late_zz(1u)")
+		*p = &wexpr{k: "var", ty: tU32, name: args}
+		return "late_zz(", true
+	}},
+	{rule: "late-call-arg-type", apply: func(c *ctx, m *wmodule) (string, bool) {
+		p := randSlot(c, m, func(e *wexpr) bool { return e.ty != nil && e.ty.k == "u32" && e.k != "lit" })
+		if p == nil {
+			return "", false
+		}
+		// run-time arguments of the wrong type (and, rarely, typed literals: recorded finding — they are coerced)
+		*p = &wexpr{k: "var", ty: tU32, name: c.pick("late_zz(bitcast<i32>(inp[0u]), 2u)", "late_zz(1u, f32(inp[1u]))", "late_zz((inp[2u] == 1u), 2u)",
+			"late_zz(1u, vec2<u32>(inp[3u], 1u))", "late_zz(inp[4u], bitcast<i32>(inp[5u]))", "late_zz(1u, 2i)")}
+		return "late_zz(", true
+	}},
 	{rule: "const-division-by-zero", apply: func(c *ctx, m *wmodule) (string, bool) {
 		// module-scope and function-scope constant declarations
 		if c.chance(0.5) {
@@ -308,9 +334,9 @@ func cmdC11(c *ctx) {
 				continue
 			}
 			marker = mk
-			src = mustUse + m.wgsl()
+			src = mustUse + m.wgsl() + "fn late_zz(a: u32, b: u32) -> u32 {\n  return a + b;\n}\n"
 		} else {
-			valid := mustUse + m.wgsl()
+			valid := mustUse + m.wgsl() + "fn late_zz(a: u32, b: u32) -> u32 {\n  return a + b;\n}\n"
 			out, ln, col, ok := ed.textEd(c, valid)
 			if !ok {
 				c.count("edit-not-applicable:" + ed.rule)
